@@ -7,7 +7,7 @@ PENDING_REASON = ("not claimed yet: model, theorems and correspondence harness f
                   "(see DESIGN.md §5)")
 NA = {}
 # properties whose check is finished and registered in MANIFEST.json (edited by the lead only)
-ENABLED = ["C01", "C02", "C03", "C04", "C05", "C07", "C08", "C09", "C10", "C11", "C12", "C13", "C14", "C15", "C16", "C17", "C18", "C19", "C20"]
+ENABLED = ["C01", "C02", "C03", "C04", "C05", "C06", "C07", "C08", "C09", "C10", "C11", "C12", "C13", "C14", "C15", "C16", "C17", "C18", "C19", "C20"]
 CLAIMED = {}
 for pid in ENABLED:
     if os.path.exists(os.path.join(os.path.dirname(os.path.abspath(__file__)), pid + ".py")):
